@@ -18,6 +18,13 @@ MU_HB = {
     "hb_mw": dict(progs=[P("L", mwt(1), "get1", "U"), P("L", "set11", "U")], NV=1, conds=muconfigs.C1),
     "hb_wn": dict(progs=[P("L", wnl(v=1, dl=1), "get1", "U"), P("L", "set11", "U", "S")], NV=1, MaxNow=1),
     "hb_try": dict(progs=[P("L", "set11", "U"), P("T", "RT", "R", "get1", "RU")], NV=1),
+    # sites that the configurations above did not reach (labels_unreached in the evidence): the re-acquisition of a timed-out conditional
+    # wait (both of its final stores), the direct wake-up in wake_waiters (signal after the critical section), the debug caller's spinlock
+    "hb_mwt": dict(progs=[P("L", mwt(1, dl=1), "get1", "U"), P("L", "set11", "U")], NV=1, conds=muconfigs.C1, MaxNow=1),
+    "hb_cva": dict(progs=[P("L", cvl(v=1), "get1", "U"), P("L", "set11", "U", "S")], NV=1),
+    # (the debug function reads mu->waiters without the spinlock when the word showed no waiters -- by design, DESIGN 9.2 -- so in this
+    #  configuration a race is counted, not fatal: it is there for the orders requested at the debug caller's spinlock sites)
+    "hb_db": dict(progs=[P("L", "set11", "U"), P("L", "get1", "U"), P("D")], NV=1, _env={"VERIF_SOFT": "O-hb"}),
 }
 MU_HB_T = {
     "hb_3": dict(progs=[P("L", "set11", "U"), P("R", "get1", "RU"), P("L", "set10", "U")], NV=1),
